@@ -147,3 +147,52 @@ Definition run_hist (ts : list str) : str :=
       end
   | _ => s_bad
   end.
+
+(* ---- fault histories: fhist <segsize> <codec> steps...;  step = f <n|-> <sop> | z ---- *)
+From RW Require Import Wal.FaultHist.
+
+Fixpoint parse_fsteps (fuel : nat) (ts : list str) : option (list fstep) :=
+  match fuel with
+  | O => Some []
+  | S f =>
+      match ts with
+      | [] => Some []
+      | t :: r =>
+          if chr 102 t then
+            match r with
+            | n :: r1 =>
+                let fl := if str_eqb n [45] then Some None
+                          else match hex_to_N n with Some n => Some (Some (N.to_nat n)) | None => None end in
+                match fl, parse_sop r1 with
+                | Some fl, Some (o, r2) => match parse_fsteps f r2 with Some l => Some (FOp fl o :: l) | None => None end
+                | _, _ => None
+                end
+            | [] => None
+            end
+          else if chr 122 t then
+            match parse_fsteps f r with Some l => Some (FRestart :: l) | None => None end
+          else None
+      end
+  end.
+
+Fixpoint run_fsteps (c : cfg) (h : fstate) (steps : list fstep) (acc : list N) : list N :=
+  match steps with
+  | [] => rev_append acc []
+  | p :: r => let h' := fstep_run c h p in
+              run_fsteps c h' r ((if fs_ok h' then 49 else 48) :: acc)
+  end.
+
+Definition run_fhist (ts : list str) : str :=
+  match ts with
+  | sz :: cd :: r =>
+      match hex_to_N sz, hex_to_N cd, parse_fsteps (S (length r)) r with
+      | Some sz, Some cd, Some steps =>
+          let c := {| c_seg_size := sz; c_codec := cd |} in
+          match initial c with
+          | Some s0 => run_fsteps c (fault_init s0) steps []
+          | None => s_err
+          end
+      | _, _, _ => s_bad
+      end
+  | _ => s_bad
+  end.
